@@ -68,6 +68,7 @@ def checkEvent (frames : Array Frame) (acc : Acc) (i : Nat) (j : Json) : Except 
     let o := obj [("known", Json.bool true), ("within", Json.bool true), ("frame_ok", Json.bool frameOk),
                   ("fresh_ok", Json.bool true), ("mut_ok", Json.bool true), ("mut_within", Json.bool true),
                   ("deep_ok", Json.bool true), ("deep_changed", listToJson natToJson []),
+                  ("nested_ok", Json.bool true), ("nested_changed", listToJson natToJson []),
                   ("written", listToJson natToJson written), ("shared", listToJson natToJson []),
                   ("mut_changed", listToJson natToJson [])]
     return { acc with st := { acc.st with heap := after ++ news }, continuous, out := o :: acc.out }
@@ -109,9 +110,20 @@ def checkEvent (frames : Array Frame) (acc : Acc) (i : Nat) (j : Json) : Except 
     deepOk := frameB before (afterDeep.take n) (List.range n)
     deepChanged := (changed post afterDeep).filter (· < n)
   | _ => pure ()
+  -- third probe (deepcopy results): in-place edits INSIDE the cell objects, at every depth (records of a key sound
+  -- list, lists inside records) and of the scalar members of the result's containers.  Spec only, as the second.
+  let mut nestedOk := true
+  let mut nestedChanged : List Nat := []
+  match j.getObjVal? "after_nested" with
+  | .ok (Json.arr a) =>
+    let afterNested ← heapOf frames (← a.toList.mapM natOf?)
+    nestedOk := frameB before (afterNested.take n) (List.range n)
+    nestedChanged := (changed post afterNested).filter (· < n)
+  | _ => pure ()
   let o := obj [("known", Json.bool known), ("within", Json.bool within), ("frame_ok", Json.bool frameOk),
                 ("fresh_ok", Json.bool freshOk), ("mut_ok", Json.bool mutOk), ("mut_within", Json.bool mutWithin),
                 ("deep_ok", Json.bool deepOk), ("deep_changed", listToJson natToJson deepChanged),
+                ("nested_ok", Json.bool nestedOk), ("nested_changed", listToJson natToJson nestedChanged),
                 ("written", listToJson natToJson written), ("shared", listToJson natToJson (ret.filter (· < n))),
                 ("mut_changed", listToJson natToJson mutChanged)]
   return { acc2 with out := o :: acc2.out }
